@@ -64,6 +64,7 @@ structure St where
   rejectsInvalid : Nat := 0     -- really invalid messages that left graph and relay untouched
   zombieAdds : Nat := 0
   zombieLives : Nat := 0
+  prunes : Nat := 0
   resKinds : List (String × Nat) := []
 
 def mismatch (s : St) (detail : String) : IO St := do
@@ -132,7 +133,7 @@ def parseMsg (ws : List String) (digs : List (Nat × Digest)) : Option Msg :=
   match ws.head? with
   | some "ca" =>
     some (.ca { chain := n ws "chain", scid := n ws "scid", n1 := n ws "n1", n2 := n ws "n2",
-                b1 := n ws "b1", b2 := n ws "b2", feat := blob (sv ws "feat"), tap := n ws "tap" == 1,
+                b1 := n ws "b1", b2 := n ws "b2", feat := blob (sv ws "feat"),
                 extra := blob (sv ws "extra"),
                 bs1 := parseSig digs (sv ws "bs1"), bs2 := parseSig digs (sv ws "bs2"),
                 ns1 := parseSig digs (sv ws "ns1"), ns2 := parseSig digs (sv ws "ns2") })
@@ -191,6 +192,13 @@ def chainOkFor (s : St) (a : ChanAnn) (cap : Nat) : Bool :=
     ((e.k1 == a.b1 && e.k2 == a.b2) || (e.k1 == a.b2 && e.k2 == a.b1))
   | none => false
 
+def chainGoodFor (s : St) (a : ChanAnn) : Bool :=
+  match lookup a.scid s.chainTab with
+  | some e =>
+    e.res == "utxo" && e.spent == 0 && e.kind == (if a.tap then "tr" else "ms") &&
+    ((e.k1 == a.b1 && e.k2 == a.b2) || (e.k1 == a.b2 && e.k2 == a.b1))
+  | none => false
+
 /-- is there a (really) authentic announcement justifying channel `c` with info `ci`? -/
 def caJustifies (s : St) (e : Seen) (c : Scid) (ci : ChanInfo) : Bool :=
   match e.msg with
@@ -232,8 +240,9 @@ def isEndpoint (chans : List (Scid × ChanInfo)) (k : Key) : Bool :=
   chans.any (fun c => c.2.n1 == k || c.2.n2 == k)
 
 def runMonitor (s : St) (opKind : String) (cur : Option Seen) (now : Nat) (relay : List String)
-    (wf : List String) (after : Dump) : IO St := do
+    (wf : List String) (wfs : List String) (after : Dump) : IO St := do
   let before := s.prev
+  let pruned : Scid := if opKind == "prn" then now else 0   -- `prn` passes its scid in `now`
   let mut s := s
   -- candidate messages: the current one, or (for replays) everything submitted before
   let replayOp := opKind == "ca" || opKind == "blk"
@@ -248,7 +257,8 @@ def runMonitor (s : St) (opKind : String) (cur : Option Seen) (now : Nat) (relay
   -- channels
   for (c, ci) in before.chans do
     if lookup c after.chans != some ci then
-      s ← monitor s "chan-changed" s!"channel {c} was removed or modified by a {opKind}"
+      if !(opKind == "prn" && c == pruned && lookup c after.chans == none) then
+        s ← monitor s "chan-changed" s!"channel {c} was removed or modified by a {opKind}"
   for (c, ci) in after.chans do
     if lookup c before.chans == none then
       added := c :: added
@@ -259,7 +269,8 @@ def runMonitor (s : St) (opKind : String) (cur : Option Seen) (now : Nat) (relay
   -- policies
   for (k, p) in before.pols do
     if lookup k after.pols == none then
-      s ← monitor s "policy-removed" s!"policy {k.1}/{k.2} disappeared"
+      if !(opKind == "prn" && k.1 == pruned) then
+        s ← monitor s "policy-removed" s!"policy {k.1}/{k.2} disappeared"
     else if lookup k after.pols != some p then pure ()
   for (k, p) in after.pols do
     let old := lookup k before.pols
@@ -280,7 +291,8 @@ def runMonitor (s : St) (opKind : String) (cur : Option Seen) (now : Nat) (relay
   -- nodes
   for (k, ni) in before.nodes do
     if lookup k after.nodes == none then
-      s ← monitor s "node-removed" s!"node {k} disappeared"
+      if !(opKind == "prn" && k != s.cfg.self && !isEndpoint after.chans k) then
+        s ← monitor s "node-removed" s!"node {k} disappeared"
     else if lookup k after.nodes != some ni then pure ()
   for (k, ni) in after.nodes do
     let old := lookup k before.nodes
@@ -300,6 +312,10 @@ def runMonitor (s : St) (opKind : String) (cur : Option Seen) (now : Nat) (relay
       if !(shellOk || annOk) then
         s ← monitor s "node-ann-authentic-fresh" s!"node {k} changed to ts={ni.ts} without a newer announcement signed by it for a node with a known channel (op={opKind})"
       else if annOk then s := { s with nodeChanges := s.nodeChanges + 1 }
+  -- invariant: a node record exists only for our own node or an endpoint of a channel in the graph
+  for (k, _) in after.nodes do
+    if k != s.cfg.self && !isEndpoint after.chans k then
+      s ← monitor s "node-without-channel" s!"node {k} is in the graph although none of the known channels has it as an endpoint"
   -- zombie index
   for (c, ks) in before.zombies do
     if lookup c after.zombies == none then
@@ -315,10 +331,13 @@ def runMonitor (s : St) (opKind : String) (cur : Option Seen) (now : Nat) (relay
     if lookup c before.zombies != some ks then
       if opKind == "zmb" then pure ()
       else
-        let ok := ks == (0, 0) && (opKind == "ca" || opKind == "blk") &&
-          caCands.any (fun e => match e.msg with | .ca a => a.scid == c && e.rv == "1111" | _ => false)
+        let ok := ks == (0, 0) && (opKind == "ca" || opKind == "blk") && !s.cfg.assumeValid &&
+          lookup c after.chans == none &&
+          caCands.any (fun e => match e.msg with
+            | .ca a => a.scid == c && a.chain == 0 && e.rv == "1111" && !chainGoodFor s a
+            | _ => false)
         if !ok then
-          s ← monitor s "zombie-added" s!"zombie entry {c} appeared on a {opKind}"
+          s ← monitor s "zombie-mark-signed-bad-funding" s!"zombie entry {c} appeared on a {opKind} although no four-signed announcement with a missing / mismatching / spent funding output was processed"
         else s := { s with zombieAdds := s.zombieAdds + 1 }
   -- relays
   for r in relay do
@@ -338,15 +357,17 @@ def runMonitor (s : St) (opKind : String) (cur : Option Seen) (now : Nat) (relay
           s ← monitor s "not-relayed-unless-accepted" s!"message id={id} was broadcast although it did not (validly) change the graph in this step"
         else s := { s with relays := s.relays + 1 }
   -- what is relayed must be byte-identical to what was received.  Known finding (codec): lnwire's
-  -- ChannelUpdate1.Encode drops unknown extra-data TLVs; only that exact situation gets the
-  -- clause `relay-wire-faithful`, every other altered relay is `relay-bytes-altered`.
+  -- ChannelUpdate1.Encode drops unknown extra-data TLVs.  Only a relayed channel_update whose
+  -- relayed bytes equal the received bytes with exactly the unknown extra-data TLVs removed (as
+  -- established by the harness, `wfs`) gets the clause `relay-wire-faithful`; every other altered
+  -- relay is `relay-bytes-altered`.
   for r in wf do
     let es := (match cur with | some e => [e] | none => []) ++ s.seen
     let isCuWithExtra := match es.find? (fun e => toString e.id == r) with
       | some e => (match e.msg with | .cu u => u.extra != "" | _ => false)
       | none => false
-    if isCuWithExtra then
-      s ← monitor s "relay-wire-faithful" s!"channel_update id={r} carrying extra-data TLVs is relayed with bytes different from the received (signed) ones"
+    if isCuWithExtra && wfs.contains r then
+      s ← monitor s "relay-wire-faithful" s!"channel_update id={r}: relayed bytes = received bytes minus the unknown extra-data TLVs (signature no longer covers them)"
     else
       s ← monitor s "relay-bytes-altered" s!"message id={r} is relayed with bytes different from the received (signed) ones"
   -- bookkeeping: an invalid message that changed nothing
@@ -430,7 +451,17 @@ def step (s : St) (line : String) : IO St := do
     let ms := { s.ms with g := { s.ms.g with zombies := upsert scid (n rest "k1", n rest "k2") s.ms.g.zombies } }
     let mut s := { s with ms := ms, ops := s.ops + 1 }
     s ← compareGraph s ms.g after
-    s ← runMonitor s "zmb" none 0 [] [] after
+    s ← runMonitor s "zmb" none 0 [] [] [] after
+    return { s with prev := after }
+  | "prn" :: rest =>
+    let scid := n rest "scid"
+    let after := parseDump ws
+    let ms := { s.ms with g := s.ms.g.prune s.cfg.self scid }
+    let mut s := { s with ms := ms, ops := s.ops + 1, prunes := s.prunes + 1 }
+    if sv ws "res" != "ok" then s ← mismatch s s!"prn: impl={sv ws "res"}"
+    if sv ws "relay" != "-" then s ← mismatch s s!"prn relayed {sv ws "relay"}"
+    s ← compareGraph s ms.g after
+    s ← runMonitor s "prn" none scid [] [] [] after
     return { s with prev := after }
   | "blk" :: rest =>
     let now := n rest "now"
@@ -442,7 +473,7 @@ def step (s : St) (line : String) : IO St := do
     if mRelay != joinOrDash (sortStr relay) then
       s ← mismatch s s!"blk relay: model={mRelay} impl={sv ws "relay"}"
     s ← compareGraph s acc.st.g after
-    s ← runMonitor s "blk" none now relay (splitList (sv ws "wf") ",") after
+    s ← runMonitor s "blk" none now relay (splitList (sv ws "wf") ",") (splitList (sv ws "wfs") ",") after
     return { s with prev := after, replays := s.replays + acc.replayed.length }
   | kind :: rest =>
     if kind != "ca" && kind != "cu" && kind != "na" && kind != "au" && kind != "ue" then
@@ -462,6 +493,11 @@ def step (s : St) (line : String) : IO St := do
       | none => pure ()
       s := { s with digs := (did, dg) :: s.digs }
     let some m := parseMsg ws s.digs | mismatch s "bad message"
+    match m with
+    | .ca a =>
+      if a.tap != (n rest "tap" == 1) then
+        s ← mismatch s s!"taproot feature bit: model tapOf(feat)={a.tap} impl tap={n rest "tap"}"
+    | _ => pure ()
     if n rest "sym" != 1 then
       s ← mismatch s "symbolic signature term disagrees with real ECDSA verification"
     let id := n rest "id"
@@ -500,7 +536,7 @@ def step (s : St) (line : String) : IO St := do
       s ← mismatch s s!"{kind} id={id}: replayed model={mRs} impl={sv ws "rs"}"
     s ← compareGraph s acc.st.g after
     -- (S) monitor
-    s ← runMonitor s kind (some cur) now relay (splitList (sv ws "wf") ",") after
+    s ← runMonitor s kind (some cur) now relay (splitList (sv ws "wf") ",") (splitList (sv ws "wfs") ",") after
     return { s with prev := after, seen := seenAll, resKinds := bump s.resKinds (kind ++ "_" ++ res),
                     replays := s.replays + acc.replayed.length,
                     pendings := s.pendings + (if res == "pending" then 1 else 0) }
@@ -524,6 +560,7 @@ def main : IO Unit := do
   IO.println s!"STAT pending_updates={s.pendings}"
   IO.println s!"STAT zombies_added={s.zombieAdds}"
   IO.println s!"STAT zombies_resurrected={s.zombieLives}"
+  IO.println s!"STAT prunes={s.prunes}"
   for (k, v) in s.resKinds do
     IO.println s!"STAT res_{k}={v}"
   IO.println s!"STAT mismatches={s.mismatches}"
